@@ -210,3 +210,29 @@ Example C06_example :
   a_toggle (hd default_ans (w_or ex_w11)) = None /\
   npk (w_log ex_w) = 3 /\ c_seq (w_c ex_w) = 3.
 Proof. vm_compute. repeat split; reflexivity. Qed.
+
+(* ------------------------------------------------------------------ tie by translation *)
+(* The accessors packet_is_full / packet_is_empty and barectf_packet_set_buf as REGENERATED from
+   barectf.c.j2 on every run (tools/c2coq.py -> Gen/CSkelFuns.v), run by the semantics of
+   Tracer/CSkel.v, are the model's: the tests `at = packet_size`, `at <= off_content` (finalisation
+   idiom of Model.step) and Model.packet_set_buf (address and size last installed, full state kept). *)
+From BT.Tracer Require Import CSkel CSkelProofs.
+From BT.Gen Require Import CSkelFuns.
+Theorem C06_is_full_is_the_translated_C :
+  forall d w, run_fun d skel_funs [] fn_packet_is_full w =
+              Some (Some (if Nat.eqb (c_at (w_c w)) (c_psize (w_c w)) then 1 else 0), w).
+Proof. exact skel_is_full. Qed.
+Print Assumptions C06_is_full_is_the_translated_C.
+
+Theorem C06_is_empty_is_the_translated_C :
+  forall d w, run_fun d skel_funs [] fn_packet_is_empty w =
+              Some (Some (if Nat.leb (c_at (w_c w)) (c_off_content (w_c w)) then 1 else 0), w).
+Proof. exact skel_is_empty. Qed.
+Print Assumptions C06_is_empty_is_the_translated_C.
+
+Theorem C06_set_buf_is_the_translated_C :
+  forall d w p bytes,
+    run_fun d skel_funs [("buf"%string, p); ("buf_size"%string, bytes)] fn_packet_set_buf w =
+    Some (None, set_c w (packet_set_buf (w_c w) bytes)).
+Proof. exact skel_set_buf. Qed.
+Print Assumptions C06_set_buf_is_the_translated_C.
